@@ -30,6 +30,12 @@ func replay(e *env) {
 			msg = e.replayBlock(&c)
 		case "proposable-attr":
 			msg = e.replayAttrBlock(&c)
+		case "e2e":
+			msg = e.replayE2E(&c)
+		case "stale":
+			msg = e.replayStale(&c)
+		case "count":
+			msg = e.replayCount(&c)
 		default:
 			fmt.Println("unknown sub-check in replay:", c.Sub)
 			os.Exit(3)
